@@ -85,10 +85,13 @@ func (e *Env) WriteReport(r *Report) {
 
 // WriteCases writes a Coq file defining `cases` and printing the mismatches computed by
 // the correspondence function `fn` of module `mod`.
-func (e *Env) WriteCases(r *Report, suffix, mod, ty string, items []string, fn string) {
+func (e *Env) WriteCases(r *Report, suffix, mod, ty string, items []string, fn string, hdr ...string) {
 	name := r.Property + "_cases" + suffix + ".v"
 	var sb strings.Builder
 	sb.WriteString("From BV Require Import " + mod + ".\nFrom Coq Require Import List ZArith String. Import ListNotations.\nOpen Scope nat_scope.\n")
+	for _, h := range hdr {
+		sb.WriteString(h + "\n")
+	}
 	sb.WriteString("Definition cases : list (" + ty + ") := [\n")
 	for i, it := range items {
 		sb.WriteString(it)
